@@ -167,6 +167,11 @@ def ct_check_cbc_mac_and_pad(data, mac, seqnumBytes, contentType, version,
     # check MAC
     #
 
+    # the padding (with its length byte) and the MAC can't overlap
+    mask = ct_lsb_prop_u8(ct_lt_u32(data_len,
+                                    pad_length + 1 + mac.digest_size))
+    result |= mask
+
     # real place where mac starts and data ends
     mac_start = pad_start - mac.digest_size
     mac_start = max(0, mac_start)
